@@ -22,7 +22,7 @@ E1_ASSUMPTIONS = [
     "third-party code (confuse, pathspec, PyYAML, ANTLR runtime) is the version installed in /venv and runs real",
     "faults are injected at the Python call boundary (open/write/close/mkdir/scandir), not below it",
     "worlds are small trees (<= ~12 directories, <= ~20 files) of small generated modules; sampling, not proof",
-    "no symlinks, no non-ASCII file content (FileStream decodes ASCII), no two files mapping to the same .rst",
+    "no symlinked directories (links to CMake files: C13, C18 only), no non-ASCII file content (FileStream decodes ASCII), no two files mapping to the same .rst",
 ]
 
 
